@@ -4,7 +4,7 @@
 Require Extraction.
 Require Import ExtrOcamlBasic.
 From Coq Require Import String List.
-From ClasticV Require Import Base.Sx Model.Stats Model.ChainIO Model.DispatchIO Model.MatchIO Model.WorldIO Model.StaticIO Model.MwIO Model.CookieIO.
+From ClasticV Require Import Base.Sx Model.Stats Model.ChainIO Model.DispatchIO Model.MatchIO Model.WorldIO Model.StaticIO Model.MwIO Model.CookieIO Model.ErrorsIO Model.FlawIO.
 Local Open Scope string_scope.
 
 Definition dispatch (tag : string) (s : sexp) : sexp :=
@@ -20,6 +20,8 @@ Definition dispatch (tag : string) (s : sexp) : sexp :=
   else if String.eqb tag "staticlab" then run_staticlab s
   else if String.eqb tag "gziplab" then run_gziplab s
   else if String.eqb tag "cookielab" then run_cookielab s
+  else if String.eqb tag "errorlab" then run_errorlab s
+  else if String.eqb tag "flawlab" then run_flawlab s
   else A "UNKNOWN-TAG".
 
 Extraction Blacklist String List Nat Bool.
